@@ -9,6 +9,8 @@
 //! Oracles:
 //!   c04.roundtrip  the value read back equals the value written, the cursor rests behind it
 //!   c04.total      `serialize` never panics (names from every Unicode plane, NaN, ±inf)
+//!   c04.save       values as new / updated objects through the REAL `Storage::save`, the saved file re-opened
+//!                  with the library: every object resolves to the value written
 
 use crate::c03::render::*;
 use crate::c03::*;
@@ -375,6 +377,157 @@ fn total_extra(seed: u64, from: u64, to: u64, tot: &mut Oracle) {
 }
 
 // ---------------------------------------------------------------------------------------------------
+// through the real writer: Storage::create / update + Storage::save, then re-open and resolve
+
+/// a minimal document (header at offset 0, dense object numbers 0..=4, classic table); object 4 is a
+/// spare that `update` overwrites
+fn base_pdf() -> Vec<u8> {
+    use crate::pdfwrite::*;
+    let mut w = PdfWriter::new(b"", "1.7");
+    w.free(0, 0, 65535);
+    w.object(1, 0, b"<< /Type /Catalog /Pages 2 0 R >>");
+    w.object(2, 0, b"<< /Type /Pages /Kids [3 0 R] /Count 1 >>");
+    w.object(3, 0, b"<< /Type /Page /Parent 2 0 R /MediaBox [0 0 10 10] >>");
+    w.object(4, 0, b"null");
+    w.finish(XrefFormat::Classic, 5, "/Root 1 0 R", &[], 0);
+    w.bytes().to_vec()
+}
+
+/// the value of the re-opened file in the harness notation; a stream carries the bytes its range holds
+fn prim_to_val_data(p: &Primitive, res: &impl pdf::object::Resolve) -> Val {
+    let ent = |d: &pdf::primitive::Dictionary| d.iter().map(|(k, v)| (k.as_str().as_bytes().to_vec(), prim_to_val_data(v, res))).collect::<Vec<_>>();
+    match p {
+        Primitive::Array(xs) => Val::Arr(xs.iter().map(|x| prim_to_val_data(x, res)).collect()),
+        Primitive::Dictionary(d) => Val::Dict(ent(d)),
+        Primitive::Stream(s) => match s.raw_data(res) {
+            Ok(d) => Val::StreamPending(ent(&s.info), d.to_vec()),
+            Err(_) => Val::StreamInFile(ent(&s.info), 0, 0, 0, 0),
+        },
+        other => prim_to_val(other, &TestResolve::new(&vec![], false)),
+    }
+}
+
+/// saves `prims` as new objects (the last one by `update` of the spare object when `use_update`) and reads
+/// them back: `Err((signature, what))` for a failure of the writer / re-opening itself
+fn save_and_reload(prims: &[Primitive], use_update: bool) -> Result<Vec<Result<Val, String>>, (String, String)> {
+    use pdf::file::{NoCache, NoLog, Storage, Trailer};
+    use pdf::object::{Object, ParseOptions, PlainRef, Resolve, Updater};
+    let r = catch_unwind(AssertUnwindSafe(|| -> Result<Vec<Result<Val, String>>, (String, String)> {
+        let e = |sig: &str, what: String| (sig.to_string(), what);
+        let mut storage = Storage::with_cache(base_pdf(), ParseOptions::strict(), NoCache, NoCache, NoLog).map_err(|x| e("save-base-load", format!("{}", x)))?;
+        let tdict = storage.load_storage_and_trailer().map_err(|x| e("save-base-load", format!("{}", x)))?;
+        let mut trailer = Trailer::from_primitive(Primitive::Dictionary(tdict), &storage.resolver()).map_err(|x| e("save-base-load", format!("trailer: {}", x)))?;
+        let mut refs: Vec<PlainRef> = vec![];
+        for (i, p) in prims.iter().enumerate() {
+            let r = if use_update && i + 1 == prims.len() {
+                storage.update(PlainRef { id: 4, gen: 0 }, p.clone()).map_err(|x| e("save-update", format!("{}", x)))?.get_ref().get_inner()
+            } else {
+                storage.create(p.clone()).map_err(|x| e("save-create", format!("{}", x)))?.get_ref().get_inner()
+            };
+            refs.push(r);
+        }
+        let saved = storage.save(&mut trailer).map_err(|x| e("save-error", format!("Storage::save: {}", x)))?.to_vec();
+        let mut st2 = Storage::with_cache(saved, ParseOptions::strict(), NoCache, NoCache, NoLog).map_err(|x| e("save-reload", format!("{}", x)))?;
+        st2.load_storage_and_trailer().map_err(|x| e("save-reload", format!("the saved file does not load: {}", x)))?;
+        let res = st2.resolver();
+        Ok(refs.iter().map(|r| res.resolve(*r).map(|p| prim_to_val_data(&p, &res)).map_err(|x| format!("{}", x))).collect())
+    }));
+    match r {
+        Ok(x) => x,
+        Err(_) => Err(("save-panic".into(), "panic inside create / save / re-opening".into())),
+    }
+}
+
+fn save_witnesses() -> Vec<(&'static str, Val)> {
+    vec![
+        ("Integer 7 (body directly before endobj)", Val::Int(7)),
+        ("Number 2^31", real_val(2147483648.0)),
+        ("Name with a space", Val::Name(b"a b".to_vec())),
+        ("String with CR", Val::Str(b"a\rb".to_vec())),
+        ("nested dictionary / array", Val::Dict(vec![(b"A".to_vec(), Val::Arr(vec![Val::Int(1), Val::Dict(vec![(b"k y".to_vec(), Val::Null)]), Val::Arr(vec![])])), (b"B".to_vec(), Val::Bool(true))])),
+        ("Pending stream", Val::StreamPending(vec![(b"Length".to_vec(), Val::Int(3))], b"abc".to_vec())),
+        ("null, reference, boolean", Val::Arr(vec![Val::Null, Val::Ref(1, 0), Val::Bool(false)])),
+        ("name ending the body", Val::Name(b"N".to_vec())),
+    ]
+}
+
+/// one save of `vals`; every value read back must equal the one written
+fn save_case(or: &mut Oracle, vals: &[Val], use_update: bool, replay: Value) {
+    let prims: Vec<Primitive> = match vals.iter().map(val_to_prim).collect::<Option<Vec<_>>>() { Some(p) => p, None => return };
+    or.count(&format!("objects={}", vals.len()));
+    if use_update { or.count("with-update-of-existing-object"); }
+    for v in vals { or.count(&format!("top={}", kind_name(v))); }
+    let r = save_and_reload(&prims, use_update);
+    let key = vals.iter().map(show_val).collect::<Vec<_>>().join(" ");
+    or.case(&key, true, || json!({"values": key, "result": match &r { Ok(vs) => json!(vs.iter().map(|v| match v { Ok(v) => show_canon(v), Err(e) => format!("err {}", e) }).collect::<Vec<_>>()), Err(e) => json!(format!("{}: {}", e.0, e.1)) }}));
+    let mut fail = |sig: &str, what: &str, extra: Value| {
+        let mut rj = replay.clone();
+        rj["values"] = json!(key);
+        rj["detail"] = extra;
+        or.fail(sig, what, rj);
+    };
+    match r {
+        Err((sig, what)) => fail(&sig, &format!("saving new objects and re-opening the file fails: {}", what), json!(null)),
+        Ok(got) => {
+            for (i, (v, g)) in vals.iter().zip(got.iter()).enumerate() {
+                let mut forms = vec![];
+                string_forms(v, &mut forms);
+                match g {
+                    Err(e) => {
+                        let k = match v { Val::Str(s) => if s.iter().any(|&b| b >= 0x80) { "string-hex".to_string() } else { "string-literal".to_string() }, v => kind_name(v).to_string() };
+                        fail(&k, &format!("object {} written by save cannot be read back: {}", i, e), json!({"object": i, "expected": show_canon(v)}));
+                        return;
+                    }
+                    Ok(g) => {
+                        let cx = DiffCtx { identify_numbers: true, buf: &[], file_off: 0, id: None, forms: &forms };
+                        if let Some(k) = diff_kind(v, g, &cx) {
+                            fail(&k, &format!("object {} read back from the saved file differs from the value written (first difference: {})", i, k), json!({"object": i, "expected": show_canon(v), "got": show_canon(g)}));
+                            return;
+                        }
+                    }
+                }
+            }
+        }
+    }
+}
+
+fn save_oracle(seed: u64, from: u64, to: u64, witness_only: Option<u64>, with_witnesses: bool) -> Oracle {
+    let mut or = Oracle::new("c04.save");
+    if with_witnesses {
+        for (idx, (name, v)) in save_witnesses().iter().enumerate() {
+            if witness_only.map(|c| c != idx as u64).unwrap_or(false) { continue; }
+            or.count("witness");
+            for upd in [false, true] {
+                save_case(&mut or, &[v.clone()], upd, json!({"stream": "c04.save.witness", "seed": 0, "case": idx, "witness": name, "update": upd}));
+            }
+        }
+    }
+    for case in from..to {
+        let mut rng = Rng::derive(seed, "c04.save", case);
+        let n = 1 + rng.usize(4);
+        let vals: Vec<Val> = (0..n).map(|_| {
+            // direct /Length only: the reference of an indirect one would have to exist in the file
+            let (v, _) = if rng.chance(1, 5) { gen_stream(&mut rng, &CFG, false) } else { gen_value(&mut rng, &CFG) };
+            v
+        }).filter(|v| !has_indirect_len(v)).collect();
+        if vals.is_empty() { continue; }
+        let upd = rng.chance(1, 3);
+        save_case(&mut or, &vals, upd, json!({"stream": "c04.save", "seed": seed, "case": case}));
+    }
+    or
+}
+
+/// a stream whose /Length is a reference (not resolvable inside the saved file)
+fn has_indirect_len(v: &Val) -> bool {
+    match v {
+        Val::StreamPending(kvs, _) => kvs.iter().any(|(k, v)| k == b"Length" && matches!(v, Val::Ref(..))) || kvs.iter().any(|(_, v)| has_indirect_len(v)),
+        Val::Arr(xs) => xs.iter().any(has_indirect_len),
+        Val::Dict(kvs) => kvs.iter().any(|(_, v)| has_indirect_len(v)),
+        _ => false,
+    }
+}
+
+// ---------------------------------------------------------------------------------------------------
 // f32 assumptions
 
 /// `-?[0-9]+(\.[0-9]+)?`
@@ -523,6 +676,8 @@ pub fn run(driver: &Driver, seed: u64, thorough: bool, replay: Option<&Value>) -
             return rep;
         }
         let (sts, ors) = match stream {
+            "c04.save.witness" => (vec![], vec![save_oracle(seed, 0, 0, Some(case), true)]),
+            "c04.save" => (vec![], vec![save_oracle(seed, case, case + 1, None, false)]),
             "c04.witness" => ser_streams(driver, seed, 0, 0, Some(case), true),
             "c04.total" => { let mut tot = Oracle::new("c04.total"); total_extra(seed, case, case + 1, &mut tot); (vec![], vec![tot]) }
             _ => ser_streams(driver, seed, case, case + 1, None, false),
@@ -536,6 +691,7 @@ pub fn run(driver: &Driver, seed: u64, thorough: bool, replay: Option<&Value>) -
     rep.streams.extend(sts);
     total_extra(seed, 0, 40000 * k, &mut ors[1]);
     rep.oracles.extend(ors);
+    rep.oracles.push(save_oracle(seed, 0, 600 * k, None, true));
     rep.streams.push(f32_stream(seed, thorough));
     rep.notes.push("c04.f32 validates ASSUMPTIONS of the model, not theorems: H1 `f32::to_string` of a finite value has the shape -?[0-9]+(\\.[0-9]+)?; H2 `str::parse::<f32>` of that text (and of the text with a `.` appended when it has none) gives back the same bits; H3 every variant the C03 printer's `real_tok` derives from it (sign `+`, 0-2 leading zeros, 0-2 trailing zeros, dropped zero integer part) parses to the same bits. quick: stride sample + boundaries; thorough: all 2^32 patterns (H3 on 1/64 of them)".into());
     rep.notes.push("the object framing of `Storage::save` is emulated by the harness (`\"{id} {gen} obj\\n\" body \"\\nendobj\\n\"`, file.rs) and compared with `c04.frame`".into());
